@@ -37,6 +37,15 @@ let handle (lines : string list) : unit =
     match words l with
     | ["npo2"; v] -> print_endline (string_of_n (model_npo2 (n_of_string v)))
     | ["swap16"; v] -> print_endline (string_of_n (swap16 (n_of_string v)))
+    | ["swapw"; v] ->
+      (* swap16 is a function to [0, 2^16): whatever integer type consumes it sees the same value *)
+      let x = n_of_string v in
+      let r = string_of_n (swap16 x) in
+      let rt = string_of_n (swap16 (swap16 x)) in
+      Printf.printf "%s %s %s %s %s %s\n" r r r r rt rt
+    | ["swapw32"; v] ->
+      let x = n_of_string v in
+      Printf.printf "%s %s\n" (string_of_n (swap32 x)) (string_of_n (swap32 (swap32 x)))
     | ["swap32"; v] -> print_endline (string_of_n (swap32 (n_of_string v)))
     | ["swap64"; v] -> print_endline (string_of_n (swap64 (n_of_string v)))
     | [("toi" | "tou" | "tol" | "toul" | "toll" | "toull") as op; base; s] ->
